@@ -104,6 +104,25 @@ func C02(r *eng.Run) {
 	})
 	r.Phase("A1 shape product", t0, nil)
 
+	// A1b: every leading-digit prefix against the small alphabet
+	t0 = time.Now()
+	nlead := 2
+	if r.Thorough() {
+		nlead = 3
+	}
+	leads := LeadSweep(nlead)
+	smx := SmallShapes()
+	r.Bounds["lead_prefix_digits"] = nlead
+	r.Par(len(leads), func(w *eng.W, i int) {
+		cl := &rcells{}
+		for _, c2 := range smx {
+			mulQuoPair(w, cl, leads[i], 0, c2, 0, mulQuo)
+			mulQuoPair(w, cl, c2, 0, leads[i], 0, []arithOp{opQuo})
+		}
+		cl.flush(w)
+	})
+	r.Phase("A1b lead sweep", t0, nil)
+
 	// A2: small integer multipliers/divisors: exact ties, terminating and repeating quotients
 	t0 = time.Now()
 	nsmall := 400
